@@ -26,7 +26,7 @@ var c20Kinds = []string{
 	"read-srt", "read-webvtt", "read-ttml", "read-ssa", "read-stl", "read-teletext",
 	"write-srt", "write-ssa", "write-stl", "write-ttml", "write-webvtt",
 	"transform",
-	"file", // Subtitles.Write to a file of its own (several goroutines write into the same directory) and OpenFile
+	"file",                // Subtitles.Write to a file of its own (several goroutines write into the same directory) and OpenFile
 	"read-teletext-early", // a long stream without teletext, from a reader that cannot seek: the call returns early
 }
 
@@ -119,6 +119,13 @@ func c20Op(kind string, seed uint64) string {
 			out = fmt.Sprintf("%s/%v/%v/%d", sha(b), err != nil, rerr != nil, n)
 		case len(kind) > 6 && kind[:6] == "write-":
 			s := richSubtitles(r)
+			if r.P(1, 3) && len(s.Items) > 0 {
+				// the site's house layout: definitions that every list refers to. The lists are not shared; the writers
+				// only have to read what the lists point to
+				s.Regions[c20HouseRegion.ID], s.Styles[c20HouseStyle.ID] = c20HouseRegion, c20HouseStyle
+				s.Items[0].Region = c20HouseRegion
+				s.Items[len(s.Items)-1].Style = c20HouseStyle
+			}
 			if ind := r.Intn(6); kind == "write-ttml" && ind > 0 {
 				// the writer's option: it concerns this call only
 				var b bytes.Buffer
@@ -203,6 +210,15 @@ func c20ProcessState() string {
 	return fmt.Sprintf("GC percent %d, working directory %s, %d environment variables", gc, wd, len(os.Environ()))
 }
 
+// the house layout that the lists of some write operations refer to (read-only for everybody)
+var c20HouseRegion, c20HouseStyle = &astisub.Region{ID: "house"}, &astisub.Style{ID: "house-style"}
+
+// c20NewHouse: every phase of a round begins with a house layout nobody has touched yet (called before the
+// goroutines of the phase exist)
+func c20NewHouse() {
+	c20HouseRegion, c20HouseStyle = &astisub.Region{ID: "house"}, &astisub.Style{ID: "house-style"}
+}
+
 // c20SharedOptions: one slice of writer options (with room to spare) that every goroutine passes as it is
 var c20SharedOptions = append(make([]astisub.WriteToTTMLOption, 0, 4), astisub.WriteToTTMLWithIndentOption("  "))
 
@@ -230,11 +246,13 @@ func c20Run(c *fw.Ctx) fw.Outcome {
 	}
 	// the sequential run, alone, beforehand
 	c20Phase = fmt.Sprintf("alone-%d", c.Idx)
+	c20NewHouse()
 	for i := range jobs {
 		jobs[i].seq = c20Op(jobs[i].kind, jobs[i].seed)
 	}
 	key := fw.Mix(uint64(g), uint64(procs), jobs[0].seed)
 	// the concurrent run: released together by a barrier, in randomised start order
+	c20NewHouse() // (as untouched as it was before the sequential run)
 	order := r.Perm(g)
 	results := make([]string, g)
 	spans := make([]c20Span, g)
@@ -311,7 +329,7 @@ func init() {
 	fw.Register(&fw.Property{
 		ID:          "C20",
 		Level:       "exploration",
-		Rule:        "case = one round: 2..32 goroutines, each owning its inputs (rebuilt from a seed), run one of 12 operation kinds (6 readers incl. teletext streams with different national subsets and X/28-M/29 packets, 5 writers - TTML also with its indentation option -, transformation sequences over Add/Fragment/Unfragment/Order/Merge/Optimize/ForceDuration/linear correction/RemoveStyling incl. padding a list and then stripping and editing the padded list), released together by a barrier in randomised order under GOMAXPROCS 2, 4 or 16. The monitor binary is built with -race: any race report fails the run (witness = the report). Every concurrent result digest must equal the digest of the same operation run alone beforehand; the package state digest (verif hook) and the data-segment digests (every package-level variable of the library as linked into the monitor: byte for byte, and followed through slices, strings, pointers, structs and arrays with the binary's debug information) must be unchanged at the end. A round counts only if at least two operations really overlapped (begin/end ticks); the evidence lists the kind x kind pairs observed overlapping (distinct_features). distinct_nontrivial = distinct rounds with overlap.",
+		Rule:        "case = one round: 2..32 goroutines, each owning its inputs (rebuilt from a seed), run one of 12 operation kinds (6 readers incl. teletext streams with different national subsets and X/28-M/29 packets, 5 writers - TTML also with its indentation option -, transformation sequences over Add/Fragment/Unfragment/Order/Merge/Optimize/ForceDuration/linear correction/RemoveStyling incl. padding a list and then stripping and editing the padded list), a third of the write operations on lists that refer to one house region and style which all of them only read (fresh and untouched at the start of each phase), released together by a barrier in randomised order under GOMAXPROCS 2, 4 or 16. The monitor binary is built with -race: any race report fails the run (witness = the report). Every concurrent result digest must equal the digest of the same operation run alone beforehand; the package state digest (verif hook) and the data-segment digests (every package-level variable of the library as linked into the monitor: byte for byte, and followed through slices, strings, pointers, structs and arrays with the binary's debug information) must be unchanged at the end. A round counts only if at least two operations really overlapped (begin/end ticks); the evidence lists the kind x kind pairs observed overlapping (distinct_features). distinct_nontrivial = distinct rounds with overlap.",
 		Assumptions: []string{"the race detector reports only accesses that happened in these rounds", "the injectable clock is set once before the rounds (it is the documented exception)"},
 		Cases:       func(tier string) int64 { return tierN(tier, 240, 20000) },
 		Workers:     4,
